@@ -227,10 +227,12 @@ type hist struct {
 	prevOp  string
 	rolled  bool // at least one rollup job completed
 
-	concurrent    bool         // a flush is running while rollup jobs run
-	world         *imgfs.World // crash part
-	beforeTrigger func()       // crash part: switch imaging on
-	afterIdle     func()       // crash part: switch imaging off
+	concurrent       bool // a flush is running while rollup jobs run
+	refsBeforeReopen string
+	crashWindow      bool         // judging a recovered crash image before the rollup was repeated
+	world            *imgfs.World // crash part
+	beforeTrigger    func()       // crash part: switch imaging on
+	afterIdle        func()       // crash part: switch imaging off
 }
 
 func newHist(spec *histSpec, res *histResult, rnd *rand.Rand) *hist {
@@ -573,6 +575,8 @@ func (h *hist) checkBookkeeping(ctx string, tv *targetView, books []famBook) {
 			case st == stPending && !mark:
 				h.res.violation("C04/bookkeeping/rollup-mark-missing/after-"+ctx, fmt.Sprintf("step %d (%s): file#%d (table %d of source family %s/%s) has not been rolled up into %s, but the source version carries no rollup mark for it (marks: %v)",
 					h.stepNo, h.stepOp, f.Seq, f.Number, fam.place.Segment, fam.place.Family, ivName(iv), books[f.Fam].Marks), h.witness(nil))
+			case st != stPending && mark && h.crashWindow && h.referenced(tv, f, iv):
+				// recovered from a crash between the target's commit and the source's commit: the reference stands for the mark
 			case st != stPending && mark:
 				h.res.violation("C04/bookkeeping/rollup-mark-left/after-"+ctx, fmt.Sprintf("step %d (%s): file#%d (table %d of source family %s/%s) is %s for %s, but the source version still carries its rollup mark (marks: %v)",
 					h.stepNo, h.stepOp, f.Seq, f.Number, fam.place.Segment, fam.place.Family, st, ivName(iv), books[f.Fam].Marks), h.witness(nil))
@@ -598,6 +602,17 @@ func (h *hist) checkBookkeeping(ctx string, tv *targetView, books []famBook) {
 			}
 		}
 	}
+}
+
+// referenced reports whether the target family of iv references the file (source store, source family id, table).
+func (h *hist) referenced(tv *targetView, f *fileRec, iv int64) bool {
+	fam := h.fams[f.Fam]
+	for _, re := range tv.refs[iv] {
+		if re.File == f.Number && re.SrcStore == fam.place.Segment && re.FamID == fam.fam.ID().Int() {
+			return true
+		}
+	}
+	return false
 }
 
 func firstN(s []string, n int) []string {
@@ -1152,6 +1167,10 @@ func (h *hist) checkSources(ctx string) {
 }
 
 func (h *hist) reopen() bool {
+	h.refsBeforeReopen = ""
+	if tv, err := h.readTargets(); err == nil {
+		h.refsBeforeReopen = refSet(h.m, tv)
+	}
 	h.env.close()
 	e, err := openEnv(h.env.dataDir, nil)
 	if err != nil {
@@ -1277,6 +1296,11 @@ func (h *hist) checkAfter(ctx string) {
 	if err != nil {
 		h.res.violation("C04/target/unreadable/after-"+ctx, fmt.Sprintf("step %d (%s): %v", h.stepNo, h.stepOp, err), h.witness(nil))
 		return
+	}
+	if ctx == "reopen" && h.refsBeforeReopen != "" {
+		if got := refSet(h.m, tv); got != h.refsBeforeReopen {
+			h.res.violation("C04/bookkeeping/reference-files-changed-by-reopen", fmt.Sprintf("step %d (%s): reference files (target family <- source store/family id/table) were %s, after close+open they are %s", h.stepNo, h.stepOp, h.refsBeforeReopen, got), h.witness(nil))
+		}
 	}
 	h.verify(ctx, tv)
 }
